@@ -14,6 +14,8 @@ def run(repo, rep):
     _memo_rule(repo, rep, 'C02', 'C02.Z1')
     from ..pitfalls import log_rule as _log_rule
     _log_rule(repo, rep, 'C02', 'C02.Z2')
+    from ..api_pitfalls import truth_rule as _truth_rule
+    _truth_rule(repo, rep, 'C02', 'C02.Z4')
     lx = LayoutExtractor(repo)
     rep.trust('PS3.8 9.3.2-9.3.8, Annex D.1 and PS3.7 Annex D.3.3 as transcribed in pnd_static/oracles/ps3_8_layouts.py, '
               'including the attribute -> standard field map (confirmed by reading)')
